@@ -21,12 +21,6 @@ from vlib.common import Rng
 
 PID = "C20"
 
-# pending findings (DEFECTS.md), keyed by the specific call site
-PENDING = {
-    "x2w-open-fail-on-stdout": "xml2wbxml reports an input file that cannot be opened on standard output "
-                               "(printf), not on standard error (tools/xml2wbxml_tool.c main, fopen failure branch)",
-}
-
 WML_HEAD = (b'<?xml version="1.0"?>\n<!DOCTYPE wml PUBLIC "-//WAPFORUM//DTD WML 1.1//EN" '
             b'"http://www.wapforum.org/DTD/wml_1.1.xml">\n')
 
@@ -336,9 +330,8 @@ def model_expectation(case, mline, libres):
             m = "failed:" + hx(libres[1]) if libres else m
         err.append(m)
     out = b""
-    for m in msgs(f["stdout"]):
-        assert m.startswith("openin:")
-        out += b"Failed to open " + unhx(m[7:]) + b"\n"
+    for m in msgs(f["stdout"]):          # the model prints no message line on stdout (since /repo 1510f5b)
+        out += b"<model stdout line " + m.encode() + b">\n"
     changed = {}
     if f["sink"].startswith("stdout:"):
         out += unhx(f["sink"][7:])
@@ -375,10 +368,8 @@ def judge(ctx, case, obs, orc, libres, helptext):
         if obs["changed"] or conv_lines or obs["rc"] != 0:
             bad.append("unreadable input: no conversion, nothing written, status 0 expected")
         if not obs["stderr"]:
-            if tool == "x2w" and inp == "FAIL" and obs["stdout"] == b"Failed to open " + orc["file"] + b"\n":
-                return bad + ["PENDING:x2w-open-fail-on-stdout"]
             bad.append("unreadable input is not reported on standard error")
-        elif obs["stdout"]:
+        if obs["stdout"]:
             bad.append("unexpected bytes on stdout")
         return bad
     code, errstr, outb = libres
@@ -441,6 +432,15 @@ def run(ctx):
     lib = Lib(cli.build_lib_harness())
     driver = common.build_driver(PID)
     shutil.rmtree(cli.RUNROOT, ignore_errors=True)
+
+    # self-test of the two builds: on `tool in -o out` the AT&T getopt stops at "in" (nothing is written), glibc's
+    # permutes and writes `out`.  Guards against an include path that silently turns both builds into one flavour.
+    probe_doc = b"<?xml version=\"1.0\"?><!DOCTYPE sl PUBLIC \"-//WAPFORUM//DTD SL 1.0//EN\" \"http://www.wapforum.org/DTD/sl.dtd\"><sl href=\"http://a/\"/>"
+    wrote = {fl: "out" in cli.run_case(exes, mk("x2w", fl, ["in", "-o", "out"], probe_doc, "probe"), 0)["changed"] for fl in ("att", "posix")}
+    ctx.coverage["getopt_flavour_selftest"] = {"probe": "xml2wbxml in -o out", "wrote_out": wrote}
+    if wrote != {"att": False, "posix": True}:
+        raise common.BuildError("the two getopt builds are not the two flavours (probe `xml2wbxml in -o out` wrote out: %r); "
+                                "check the include order of tools/config.h in vlib/cli.build_tools" % wrote)
 
     # usage texts
     helptext = {}
@@ -518,9 +518,7 @@ def run(ctx):
                 concrete.append({"what": b, "case": cj, "rc": o["rc"], "stderr": o["stderr"][-1500:], "note": "the in-process library call crashed as well"})
             continue
         for b in judge(ctx, c, o, orc, olr, ht):
-            if b.startswith("PENDING:"):
-                pending.add(b[8:])
-            else:
+            if True:
                 concrete.append({"what": b, "case": cj, "rc": o["rc"], "stdout": o["stdout"][:400], "stderr": o["stderr"][-1500:],
                                  "files_changed": {k: (hx(v[:200]) if isinstance(v, bytes) else v) for k, v in o["changed"].items()},
                                  "library_in_process": {"code": olr[0], "bytes": len(olr[2])} if olr else None})
@@ -584,14 +582,8 @@ def run(ctx):
         "spec_vs_python_getopt_disagreements": len(spec_bad),
         "max_library_error_code": maxerr,
         "in_process_library_call_unavailable": lib_unavailable,
-        "pending_findings": sorted(pending),
         "partial": "real stdio after a successful fopen (short writes, fclose errors, full disk), signals, allocation failure inside the tools",
     })
-
-    for k in sorted(pending):
-        if not ctx.report_known(k):
-            print("KNOWN-FINDING: property=%s %s" % (PID, PENDING[k]), flush=True)
-            ctx.known_hits.append(k)
 
     if maxerr >= 256:
         ctx.violation("error-code-above-255", {"broken": "theorem C20_exit_status assumes every library code < 256", "max_code": maxerr}, found_input=False)
